@@ -97,7 +97,11 @@ def polynomial_from_attributes(
 
     if coefficients:
         # The raw writer copies source-typed words and only knows a few types.
-        coefficients = [coeff.astype(poly.dtype, copy=False) for coeff in coefficients]
+        # (it also wants writable memory, which views like numpy.diagonal's are not)
+        coefficients = [
+            coeff.astype(poly.dtype, copy=not coeff.flags.writeable)
+            for coeff in coefficients
+        ]
         if poly.dtype in RAW_WRITER_DTYPES:
             numpoly.cfrom_attributes(coefficients, poly.values.ravel())
         else:
